@@ -514,8 +514,37 @@ pub fn sites_of(h: &Helpers, body: &Block) -> Vec<PT> {
 
 type Env0 = Vec<(String, Expr)>;
 
-/// functions that are dispatch sites of their own in the byte-level model (Ptr.v): not inlined into callers
-const KNOWN_SITE_FNS: [&str; 3] = ["new", "read_local_data", "drop_local_data"];
+/// a helper whose whole body is one size dispatch (the futures' "read my value" / "destroy my value") is a
+/// dispatch site of its own in the byte-level model (Ptr.v): it is not inlined into its callers
+fn is_site_fn(h: &Helpers, name: &str) -> bool {
+    if name == "new" {
+        return true;
+    }
+    match h.fns.get(name) {
+        Some((_, b)) if b.stmts.len() == 1 => {
+            let e = match &b.stmts[0] {
+                Stmt::Expr(e, _) => e,
+                _ => return false,
+            };
+            fn core(e: &Expr) -> &Expr {
+                match e {
+                    Expr::Paren(p) => core(&p.expr),
+                    Expr::Unsafe(u) if u.block.stmts.len() == 1 => match &u.block.stmts[0] {
+                        Stmt::Expr(x, _) => core(x),
+                        _ => e,
+                    },
+                    _ => e,
+                }
+            }
+            match core(e) {
+                Expr::If(i) => toks(&i.cond).contains("size_of") || cond_names_pred(&i.cond, h),
+                Expr::Match(m) => toks(&m.expr).contains("size_of"),
+                _ => false,
+            }
+        }
+        _ => false,
+    }
+}
 
 fn collect_sites(h: &Helpers, body: &Block, out: &mut Vec<(Expr, Env0)>, depth: usize) {
     // locals of this function bound to size conditions
@@ -591,7 +620,7 @@ fn collect_sites(h: &Helpers, body: &Block, out: &mut Vec<(Expr, Env0)>, depth: 
         fn visit_expr_method_call(&mut self, m: &'ast syn::ExprMethodCall) {
             syn::visit::visit_expr_method_call(self, m);
             let recv = toks(&m.receiver);
-            if (recv == "self" || recv == "this") && self.depth < 4 && !KNOWN_SITE_FNS.contains(&m.method.to_string().as_str()) {
+            if (recv == "self" || recv == "this") && self.depth < 4 && !is_site_fn(self.h, &m.method.to_string()) {
                 if let Some((_, b)) = self.h.fns.get(&m.method.to_string()) {
                     if toks(b).contains("size_of") {
                         collect_sites(self.h, b, self.out, self.depth + 1);
@@ -604,7 +633,7 @@ fn collect_sites(h: &Helpers, body: &Block, out: &mut Vec<(Expr, Env0)>, depth: 
             if self.depth < 4 {
                 if let Expr::Path(p) = &*c.func {
                     let segs: Vec<String> = p.path.segments.iter().map(|s| s.ident.to_string()).collect();
-                    if segs.len() <= 2 && (segs.len() == 1 || segs[0] == "Self") && !KNOWN_SITE_FNS.contains(&segs.last().unwrap().as_str()) {
+                    if segs.len() <= 2 && (segs.len() == 1 || segs[0] == "Self") && !is_site_fn(self.h, segs.last().unwrap()) {
                         if let Some((_, b)) = self.h.fns.get(segs.last().unwrap()) {
                             if toks(b).contains("size_of") {
                                 collect_sites(self.h, b, self.out, self.depth + 1);
